@@ -7,6 +7,7 @@ from typing import TYPE_CHECKING, ClassVar
 from mypy_extensions import mypyc_attr
 
 from pyjelly import jelly
+from pyjelly.errors import JellyConformanceError
 from pyjelly.options import LookupPreset, StreamParameters, StreamTypes
 from pyjelly.serialize.encode import (
     Slot,
@@ -61,6 +62,7 @@ class Stream:
         self.flow = flow
         self.repeated_terms = [None] * len(Slot)
         self.enrolled = False
+        self.failed = False
         self.stream_types = StreamTypes(
             physical_type=self.physical_type,
             logical_type=self.flow.logical_type,
@@ -94,6 +96,18 @@ class Stream:
         else:
             flow = ManualFrameFlow(logical_type=self.options.logical_type)
         return flow
+
+    def check_usable(self) -> None:
+        """
+        Refuse to encode more statements after a statement failed half-way.
+
+        A statement that raised while being encoded has already changed the
+        lookup tables and repeated terms, but none of its rows were written,
+        so anything encoded afterwards would not decode to what was passed in.
+        """
+        if self.failed:
+            msg = "stream is unusable: encoding a previous statement failed"
+            raise JellyConformanceError(msg)
 
     def enroll(self) -> None:
         """Initialize start of the stream."""
@@ -206,11 +220,16 @@ class TripleStream(Stream):
                 flow supports frames slicing and current flow is full
 
         """
-        new_rows = encode_triple(
-            terms,
-            term_encoder=self.encoder,
-            repeated_terms=self.repeated_terms,
-        )
+        self.check_usable()
+        try:
+            new_rows = encode_triple(
+                terms,
+                term_encoder=self.encoder,
+                repeated_terms=self.repeated_terms,
+            )
+        except BaseException:
+            self.failed = True
+            raise
         self.flow.extend(new_rows)
         return self.flow.frame_from_bounds()
 
@@ -231,11 +250,16 @@ class QuadStream(Stream):
                 flow supports frames slicing and current flow is full
 
         """
-        new_rows = encode_quad(
-            terms,
-            term_encoder=self.encoder,
-            repeated_terms=self.repeated_terms,
-        )
+        self.check_usable()
+        try:
+            new_rows = encode_quad(
+                terms,
+                term_encoder=self.encoder,
+                repeated_terms=self.repeated_terms,
+            )
+        except BaseException:
+            self.failed = True
+            raise
         self.flow.extend(new_rows)
         return self.flow.frame_from_bounds()
 
@@ -260,6 +284,7 @@ class GraphStream(TripleStream):
             Generator[jelly.RdfStreamFrame]: jelly frames.
 
         """
+        self.check_usable()
         graph_start = jelly.RdfGraphStart()
         [*graph_rows] = self.encoder.encode_graph(graph_id, graph_start)
         start_row = jelly.RdfStreamRow(graph_start=graph_start)
